@@ -151,6 +151,8 @@ type Engine struct {
 	randLog       []RandRec
 	unwindFn      map[string]int
 	usedMemo      map[string]map[ssa.Value]bool
+	tryFailCount  *Term
+	maxTryFails   int
 	defaultCount  *Term
 	maxDefaults   int
 	lastRandN     *Term
@@ -184,7 +186,7 @@ func NewEngine(l *Loaded) *Engine {
 		reaches: map[string]*Term{}, unwindFail: TS.False, blocked: TS.False, nondets: map[string]*Term{},
 		funcsSeen: map[string]int{}, stubsSeen: map[string]int{}, loopsOf: map[*ssa.Function]*loopInfo{},
 		rpoOf: map[*ssa.Function]map[*ssa.BasicBlock]int{}, unwindWhere: map[string]bool{}, blockedAt: map[string]bool{},
-		usedMemo: map[string]map[ssa.Value]bool{}, defaultCount: BV(0, 8), maxDefaults: -1, lastRandN: BV(0, 64), lastRandR: BV(0, 64), stepMax: 4000000, maxSlice: 8, loopAllocMemo: map[string]bool{}, fnAllocMemo: map[*ssa.Function]bool{}}
+		usedMemo: map[string]map[ssa.Value]bool{}, defaultCount: BV(0, 8), tryFailCount: BV(0, 8), maxTryFails: -1, maxDefaults: -1, lastRandN: BV(0, 64), lastRandR: BV(0, 64), stepMax: 4000000, maxSlice: 8, loopAllocMemo: map[string]bool{}, fnAllocMemo: map[*ssa.Function]bool{}}
 	return e
 }
 
@@ -448,7 +450,7 @@ func (e *Engine) mergeInto(a, b *Config) {
 }
 
 func (e *Engine) enqueue(c *Config) {
-	if c.g.IsFalse() {
+	if c.g.IsFalse() || semFalse(c.g) {
 		return
 	}
 	c.ok = e.orderKey(c)
@@ -461,11 +463,11 @@ func (e *Engine) enqueue(c *Config) {
 func (e *Engine) split(c *Config, cond *Term) (*Config, *Config) {
 	gt := And(c.g, cond)
 	gf := And(c.g, Not(cond))
-	if gt.IsFalse() {
+	if gt.IsFalse() || semFalse(gt) {
 		c.g = gf
 		return nil, c
 	}
-	if gf.IsFalse() {
+	if gf.IsFalse() || semFalse(gf) {
 		c.g = gt
 		return c, nil
 	}
@@ -847,7 +849,7 @@ func runtimeErrVal(what string) Value {
 // raise splits off the part of c where cond holds into a panicking config (queued).
 func (e *Engine) raise(c *Config, cond *Term, what string) {
 	g := And(c.g, cond)
-	if g.IsFalse() {
+	if g.IsFalse() || semFalse(g) {
 		return
 	}
 	if !cond.IsTrue() && !c.top().deferred {
